@@ -29,7 +29,9 @@ RULE = (
     "all points, non-unit normal and direction) while the harness maps the points itself (R-AFFINE; shear = p + d "
     "(p-o).n / tan(angle)); the first library call after that is drawn: the cell's own query, get_point, get_length or "
     "get_closest_param. Line / Circle (rim perpendicular to a non-unit normal, full or clipped "
-    "bounds) / helix / twisted-cubic analytic curves in random frames. Parameters are drawn uniformly, at the bounds and "
+    "bounds) / helix / twisted-cubic analytic curves in random frames, the user function of the last two written in one of "
+    "three styles (numpy component expressions that also accept parameter arrays, math.* scalars only, row of a vectorised "
+    "function); discretisation counts and edge point numbers favour small values (2-5, 1-3). Parameters are drawn uniformly, at the bounds and "
     "at the parameters of defining points, in either order. Queries are a curve point plus an offset of <= 5 % of the "
     "local point spacing (near) or 0.5-3 curve lengths (far, counted only). References are written in the harness: "
     "chord-length / uniform break parameters, linear interpolation, closed-form analytic curves, dense sampling (>= 801 "
@@ -209,6 +211,11 @@ def analytic_curve(draw, kinds=("line", "circle", "helix", "cubic")):
     else:
         spec["bounds"] = [draw(st.floats(-1.0, -0.2)), draw(st.floats(0.2, 1.0))]
         spec["coef"] = [draw(st.floats(0.5, 2.0)), draw(st.floats(-2.0, 2.0)), draw(st.floats(-2.0, 2.0))]
+    if kind in ("helix", "cubic"):
+        # how the user wrote the function: "components" = np.array([x(t), y(t), z(t)]) with numpy ufuncs (takes a scalar or an
+        # array of parameters, then of shape (3, n)); "scalar" = math.* functions, scalars only; "rows" = a wrapper around a
+        # vectorised function that returns the first row
+        spec["style"] = draw(st.sampled_from(["components", "scalar", "rows"]))
     return spec
 
 
@@ -324,14 +331,33 @@ def build(spec):
             ts = np.atleast_1d(np.asarray(ts, dtype=float))
             return org + s * (np.outer(np.cos(ts), e1) + np.outer(np.sin(ts), e2)) + np.outer(pitch * ts, e3)
 
-        return AnalyticCurve(lambda t: ref_helix(t)[0], bounds), ref_helix
+        fx, fy, fz = (np.cos, np.sin, lambda t: t) if spec.get("style") != "scalar" else (math.cos, math.sin, lambda t: t)
+        coef = [(s * e1[k], s * e2[k], pitch * e3[k]) for k in range(3)]
+        return AnalyticCurve(user_function(spec, ref_helix, org, coef, (fx, fy, fz)), bounds), ref_helix
     a, b, c = (x * s for x in spec["coef"])
 
     def ref_cubic(ts):
         ts = np.atleast_1d(np.asarray(ts, dtype=float))
         return org + np.outer(a * ts, e1) + np.outer(b * ts**2, e2) + np.outer(c * ts**3, e3)
 
-    return AnalyticCurve(lambda t: ref_cubic(t)[0], bounds), ref_cubic
+    coef = [(a * e1[k], b * e2[k], c * e3[k]) for k in range(3)]
+    powers = (lambda t: t, lambda t: t**2, lambda t: t**3)
+    return AnalyticCurve(user_function(spec, ref_cubic, org, coef, powers), bounds), ref_cubic
+
+
+def user_function(spec, ref, org, coef, basis):
+    """P(t) = org + sum_j coef[.][j] basis[j](t), written the way users write curve functions"""
+    style = spec.get("style", "rows")
+    if style == "rows":
+        return lambda t: ref(t)[0]
+    f0, f1, f2 = basis
+
+    def component(k, t):
+        return org[k] + coef[k][0] * f0(t) + coef[k][1] * f1(t) + coef[k][2] * f2(t)
+
+    if style == "scalar":
+        return lambda t: np.array([component(0, float(t)), component(1, float(t)), component(2, float(t))])
+    return lambda t: np.array([component(0, t), component(1, t), component(2, t)])
 
 
 def sampler(curve, ref):
@@ -399,6 +425,8 @@ def nontrivial(case, ctx: Ctx) -> None:
     ratio = spacing_ratio(spec)
     ctx.nt(ratio > 2 and not at_bounds)
     ctx.label("type=" + spec["type"] + ("/eq" if spec.get("equalize") else ""))
+    if "style" in spec:
+        ctx.label("function-style=" + spec["style"])
     if "points" in spec:
         ctx.label("ratio>2" if ratio > 2 else "ratio<=2", "ratio>10" if ratio > 10 else "ratio<=10", *size_labels(spec)[1:3])
     if "params" in case and len(case["params"]) >= 2:
@@ -439,12 +467,14 @@ def check_ends(case, ctx: Ctx) -> None:
     nontrivial(case, ctx)
     if any(use_none):
         ctx.label("default-bound")
+    if spec["type"] != "discrete":
+        ctx.label("count=%d" % case["count"] if case["count"] <= 5 else "count>5")
 
 
 @st.composite
 def ends_case(draw):
     case = draw(curve_and_params(st.one_of(point_curve(("discrete", "linear", "spline")), analytic_curve())))
-    case["count"] = draw(st.integers(2, 30))
+    case["count"] = draw(st.one_of(st.sampled_from([2, 3, 4, 5]), st.integers(2, 30)))
     _sometimes = st.sampled_from([False] * 5 + [True])
     case["none"] = [draw(_sometimes), draw(_sometimes)]
     return case
@@ -835,7 +865,7 @@ def edge_case(draw):
         "curve": spec,
         "params": draw(edge_params(spec)),
         "position": draw(st.sampled_from(sorted(EDGE_POSITIONS))),
-        "n_points": draw(st.integers(1, 12)),
+        "n_points": draw(st.one_of(st.sampled_from([1, 2, 3]), st.integers(1, 12))),
         "representation": draw(st.sampled_from(["spline", "polyLine"])),
         "dirs": [draw(_vec), draw(_vec)],
     }
@@ -1029,7 +1059,9 @@ def check_edge(case, ctx: Ctx) -> None:
     t1, t2 = case["params"]
     ctx.nt(spacing_ratio(spec) > 2 and not (min(t1, t2) == b0 and max(t1, t2) == b1))
     ctx.label("type=" + spec["type"] + ("/eq" if spec.get("equalize") else ""), "reversed" if t1 > t2 else "forward",
-              "pos=" + case["position"][:-1], case["representation"], "rewrites=%d" % done, *size_labels(spec))
+              "pos=" + case["position"][:-1], case["representation"], "rewrites=%d" % done, *size_labels(spec),
+              "n_points=%d" % case["n_points"] if case["n_points"] <= 3 else "n_points>3",
+              *(["function-style=" + spec["style"]] if "style" in spec else []))
 
 
 # --------------------------------------------------------------------------------------------------
